@@ -596,6 +596,13 @@ func buildNode(p Prog, schemas []Schema, built []bigslice.Slice, k int, env Env)
 			}
 			rec.mu.Unlock()
 			c := rec.count(k, shard)
+			if n.Fail != nil && n.Fail.AtEOF {
+				// fail exactly on the end-of-stream call (where a real writer flushes or closes)
+				if e := args[2].Interface(); e == nil || e.(error) != sliceio.EOF {
+					return []reflect.Value{reflect.Zero(tErr)}
+				}
+				c = n.Fail.Row
+			}
 			if trip(n.Fail, env.Run, k, shard, c) {
 				return []reflect.Value{reflect.ValueOf(raise(n.Fail, env.Run, k)).Convert(tErr)}
 			}
